@@ -1544,6 +1544,9 @@ def lower_getitem_at_partitioned(context, builder, sig, args):
             builder, ValueError, ("slice index out of bounds",)
         )
 
+    # positions in 'stops' are relative to the whole array, not to this view
+    atval = builder.add(atval, partviewproxy.start)
+
     localstart = partviewtype.lower_get_localstart(
         context, builder, partviewproxy.stops, builder.load(partviewproxy.partitionid)
     )
@@ -1676,8 +1679,8 @@ def lower_getitem_range_partitioned(context, builder, sig, args):
     proxyout.view = numba.core.cgutils.alloca_once_value(
         builder, builder.load(partviewproxy.view)
     )
-    proxyout.start = builder.load(regular_start)
-    proxyout.stop = builder.load(regular_stop)
+    proxyout.start = builder.add(partviewproxy.start, builder.load(regular_start))
+    proxyout.stop = builder.add(partviewproxy.start, builder.load(regular_stop))
 
     if context.enable_nrt:
         context.nrt.incref(builder, partviewtype.stopstype, proxyout.stops)
@@ -1779,9 +1782,27 @@ def lower_getiter_partitioned(context, builder, sig, args):
     (partviewval,) = args
     partviewproxy = context.make_helper(builder, partviewtype, partviewval)
 
-    partitionid = context.get_constant(numba.intp, 0)
-    viewlength = partviewtype.lower_get_localstop(
-        context, builder, partviewproxy.stops, partitionid
+    # iteration starts in the partition that holds this view's first item
+    # (the first partition for an empty view)
+    def firstpartition_impl(stops, start, stop):
+        if start >= stop:
+            return 0
+        else:
+            return ak.nplike.numpy.searchsorted(stops, start, side="right")
+
+    partitionid = context.compile_internal(
+        builder,
+        firstpartition_impl,
+        numba.intp(partviewtype.stopstype, numba.intp, numba.intp),
+        (partviewproxy.stops, partviewproxy.start, partviewproxy.stop),
+    )
+    viewlength = builder.sub(
+        partviewtype.lower_get_localstop(
+            context, builder, partviewproxy.stops, partitionid
+        ),
+        partviewtype.lower_get_localstart(
+            context, builder, partviewproxy.stops, partitionid
+        ),
     )
 
     partoutproxy = context.make_helper(builder, partviewtype)
@@ -1806,10 +1827,9 @@ def lower_getiter_partitioned(context, builder, sig, args):
 
     proxyout = context.make_helper(builder, rettype)
     proxyout.partview = partoutproxy._getvalue()
-    proxyout.length = builder.sub(partviewproxy.stop, partviewproxy.start)
-    proxyout.at = numba.core.cgutils.alloca_once_value(
-        builder, context.get_constant(numba.intp, 0)
-    )
+    # 'at' counts positions in the whole array, like 'stops': from start to stop
+    proxyout.length = partviewproxy.stop
+    proxyout.at = numba.core.cgutils.alloca_once_value(builder, partviewproxy.start)
 
     if context.enable_nrt:
         context.nrt.incref(builder, partviewtype.stopstype, partoutproxy.stops)
